@@ -487,13 +487,15 @@ func (bt *bugTable) pull(g *gocui.Gui, v *gocui.View) error {
 			}
 
 			if result.Err != nil {
+				mergeErr := result.Err
 				g.Update(func(gui *gocui.Gui) error {
-					ui.msgPopup.Activate(msgPopupErrorTitle, err.Error())
+					ui.msgPopup.Activate(msgPopupErrorTitle, mergeErr.Error())
 					return nil
 				})
 			} else {
+				// an invalid remote entity comes without an entity, only with its id
 				_, _ = fmt.Fprintf(&buffer, "%s%s: %s",
-					beginLine, colors.Cyan(result.Entity.Id().Human()), result,
+					beginLine, colors.Cyan(result.Id.Human()), result,
 				)
 
 				beginLine = "\n"
